@@ -198,7 +198,8 @@ func ratOfFloat(v float64) *big.Rat { return new(big.Rat).SetFloat64(v) }
 // bitem is one constant declaration with its oracle.
 type bitem struct {
 	Group  string // form|op|type : one front-end source per group
-	Key    string // canonical class prefix (without oracle suffix)
+	Key    string // canonical class: family|form|operator|type|result class (accept/reject keys)
+	Cls    string // operand classes, appended for value-mismatch keys
 	Desc   string
 	Decl   string // Go-syntax declaration, @N@ is the constant's name
 	Accept bool   // exact-arithmetic oracle: must the checker accept it?
@@ -321,7 +322,8 @@ func genIntItems(types []numType) []bitem {
 							it.SameRT = true
 							it.RunStmts = fmt.Sprintf("\t\t%s\n\t\tvar x %s = %s\n\t\tvar y %s = %s\n\t\tprintln(@C@, x %s y, @ID@)", strings.ReplaceAll(it.Decl, "@N@", "@C@"), t.Name, a, t.Name, b, op)
 						}
-						it.Key += "|" + it.RC + "|" + cls
+						it.Key += "|" + it.RC
+						it.Cls = cls
 						out = append(out, it)
 					}
 				}
@@ -339,7 +341,8 @@ func genIntItems(types []numType) []bitem {
 						}
 						it.Want = strconv.FormatBool(cmpHolds(op, a.Cmp(b)))
 						it.RunWant = it.Want
-						it.Key = "b|" + form + "|" + op + "|" + t.Name + "|bool|" + t.operandClass(a) + "," + t.operandClass(b)
+						it.Key = "b|" + form + "|" + op + "|" + t.Name + "|bool"
+						it.Cls = t.operandClass(a) + "," + t.operandClass(b)
 						it.RunStmts = fmt.Sprintf("\t\t%s\n\t\tvar x %s = %s\n\t\tvar y %s = %s\n\t\tprintln(@C@, x %s y, @ID@)", strings.ReplaceAll(it.Decl, "@N@", "@C@"), t.Name, a, t.Name, b, op)
 						out = append(out, it)
 					}
@@ -369,7 +372,8 @@ func genIntItems(types []numType) []bitem {
 						if int(s) >= t.Bits {
 							cc = "count>=width"
 						}
-						it.Key = "b|" + form + "|" + op + "|" + t.Name + "|" + it.RC + "|" + t.operandClass(a) + "," + cc
+						it.Key = "b|" + form + "|" + op + "|" + t.Name + "|" + it.RC
+						it.Cls = t.operandClass(a) + "," + cc
 						if it.Accept {
 							it.Want = v.String()
 							it.RunWant = it.Want
@@ -406,7 +410,8 @@ func genIntItems(types []numType) []bitem {
 					}
 					it.RC = t.resultClass(v)
 					it.Accept = t.inRange(v)
-					it.Key = "b|" + form + "|unary" + op + "|" + t.Name + "|" + it.RC + "|" + t.operandClass(a)
+					it.Key = "b|" + form + "|unary" + op + "|" + t.Name + "|" + it.RC
+					it.Cls = t.operandClass(a)
 					if op == "^" && form == "typed" && (t.Name == "uint" || t.Name == "uintptr") {
 						it.NoRun = true // Go's uint is 64 bits wide: no run-time reference for the complement
 					}
@@ -495,7 +500,8 @@ func genFloatItems() []bitem {
 						} else {
 							it.RC = "overflow"
 						}
-						it.Key = "b|" + form + "|" + op + "|" + t.Name + "|" + it.RC + "|" + floatClass(a) + "," + floatClass(b)
+						it.Key = "b|" + form + "|" + op + "|" + t.Name + "|" + it.RC
+						it.Cls = floatClass(a) + "," + floatClass(b)
 						out = append(out, it)
 					}
 				}
@@ -513,7 +519,8 @@ func genFloatItems() []bitem {
 						}
 						it.Want = strconv.FormatBool(cmpHolds(op, operand(a).Cmp(operand(b))))
 						it.RunWant = it.Want
-						it.Key = "b|" + form + "|" + op + "|" + t.Name + "|bool|" + floatClass(a) + "," + floatClass(b)
+						it.Key = "b|" + form + "|" + op + "|" + t.Name + "|bool"
+						it.Cls = floatClass(a) + "," + floatClass(b)
 						it.RunStmts = fmt.Sprintf("\t\t%s\n\t\tvar x %s = %s\n\t\tvar y %s = %s\n\t\tprintln(@C@, x %s y, @ID@)", strings.ReplaceAll(it.Decl, "@N@", "@C@"), t.Name, floatLitB(a), t.Name, floatLitB(b), op)
 						out = append(out, it)
 					}
@@ -533,7 +540,8 @@ func genFloatItems() []bitem {
 				bits, _ := t.roundTo(new(big.Rat).Neg(operand(a)))
 				it.Want = strconv.FormatUint(bits, 10)
 				it.RunWant = it.Want
-				it.Key = "b|" + form + "|unary-|" + t.Name + "|finite|" + floatClass(a)
+				it.Key = "b|" + form + "|unary-|" + t.Name + "|finite"
+				it.Cls = floatClass(a)
 				it.RunStmts = fmt.Sprintf("\t\t%s\n\t\tvar x %s = %s\n\t\tprintln(%s(@C@), %s(-x), @ID@)", strings.ReplaceAll(it.Decl, "@N@", "@C@"), t.Name, floatLitB(a), bitsFn, bitsFn)
 				out = append(out, it)
 			}
@@ -613,7 +621,8 @@ func genConvItems(types []numType) []bitem {
 						it.Want = a.q.Num().String()
 					}
 				}
-				it.Key = "c|conv|" + from.Name + "->" + to.Name + "|" + it.RC + "|" + a.cls
+				it.Key = "c|conv|" + from.Name + "->" + to.Name + "|" + it.RC
+				it.Cls = a.cls
 				if it.Accept {
 					it.RunWant = it.Want
 					// a negative operand that rounds to zero is +0 as a constant and -0 at run time (as in Go)
@@ -682,7 +691,8 @@ func genWideItems(fullBinary bool) []bitem {
 					it.Want = q.Num().String()
 				}
 			}
-			it.Key = "b|wide|lit|" + t.Name + "|" + it.RC + "|" + cls
+			it.Key = "b|wide|lit|" + t.Name + "|" + it.RC
+			it.Cls = cls
 			out = append(out, it)
 		}
 		for _, v := range wi {
